@@ -37,15 +37,22 @@ type c19GenCase struct {
 	C         int    `json:"c"`
 	N         int    `json:"n"`
 	Procs     int    `json:"procs"`      // GOMAXPROCS during the call
-	Entropy   string `json:"entropy"`    // inf | zero | finite
+	Entropy   string `json:"entropy"`    // inf | zero | finite | barrier | transient
 	FailAfter int    `json:"fail_after"` // finite: bytes served before the reader fails
-	Cancel    string `json:"cancel"`     // none | pre | during
-	DelayUs   int    `json:"delay_us"`   // during: delay before the cancellation
+	// barrier: OkReads Read calls succeed; every later Read fails, and holds its callers until C of them are inside (or
+	// the reader's time limit has passed), so that all producers meet the failure at the same moment
+	// transient: OkReads Read calls succeed, the next one fails, all later ones succeed
+	OkReads int    `json:"ok_reads,omitempty"`
+	Cancel  string `json:"cancel"`   // none | pre | during | held (barrier: cancel once all producers are held, open afterwards)
+	DelayUs int    `json:"delay_us"` // during: delay before the cancellation
 	Seed      int64  `json:"seed"`
 	DeadlineS int    `json:"deadline_s"` // watchdog inside the child
 }
 
 func (c c19GenCase) ID() string {
+	if c.Entropy == "barrier" || c.Entropy == "transient" {
+		return fmt.Sprintf("gen|b%d|c%d|n%d|p%d|%s:%d|%s:%d", c.Bits, c.C, c.N, c.Procs, c.Entropy, c.OkReads, c.Cancel, c.DelayUs)
+	}
 	return fmt.Sprintf("gen|b%d|c%d|n%d|p%d|%s:%d|%s:%d", c.Bits, c.C, c.N, c.Procs, c.Entropy, c.FailAfter, c.Cancel, c.DelayUs)
 }
 
@@ -77,12 +84,17 @@ type c19GenOut struct {
 	CancelBefore  bool        `json:"cancel_before"`            // the harness began cancelling before it saw the call return
 	ReaderFailed  bool        `json:"reader_failed"`
 	ReaderServed  int64       `json:"reader_served"`
+	BarOpened     bool        `json:"bar_opened,omitempty"` // barrier reader: it opened before the call was seen to return
+	BarHeld       int         `json:"bar_held,omitempty"`   // ... with this many callers inside its failing Read
+	BarForced     bool        `json:"bar_forced,omitempty"` // ... before C callers were inside (time limit / the harness)
 	LibBase       int         `json:"lib_base"`   // library goroutines before the call (after settling)
 	LibAfter      int         `json:"lib_after"`  // ... after the call and the settle loop
 	LateReads     int         `json:"late_reads"` // reads of the entropy source after the call had returned
 	ElapsedMs     float64     `json:"elapsed_ms"`
 	AfterCancelMs float64     `json:"after_cancel_ms,omitempty"` // return time minus cancellation time (during)
 	Dump          string      `json:"dump,omitempty"`            // goroutines of the library (hang / leak)
+	Samples       int         `json:"samples,omitempty"`         // deadlock: consecutive identical dumps (one second apart)
+	Cert          string      `json:"cert,omitempty"`            // deadlock: every library goroutine is parked by a library frame (summary)
 	Panic         string      `json:"panic,omitempty"`
 }
 
@@ -90,7 +102,8 @@ type c19GenOut struct {
 
 var errC19Entropy = errors.New("c19: entropy source exhausted")
 
-// c19Reader is a goroutine-safe deterministic byte source that can fail after a number of bytes.
+// c19Reader is a goroutine-safe deterministic byte source that can fail after a number of bytes, or (barrier mode)
+// after a number of Read calls and then for all its callers at the same moment.
 type c19Reader struct {
 	mu       sync.Mutex
 	r        *rand.Rand
@@ -99,10 +112,112 @@ type c19Reader struct {
 	served   int64
 	returned bool // the call this reader was handed to has returned
 	late     int  // Read calls after that
+
+	// transient mode (SafePrimeGen.tla: cfg.heal): okLeft Read calls succeed, one fails, all later ones succeed
+	transient bool
+
+	// barrier mode (SafePrimeGen.tla: cfg.bar, the producers' state "held", the action BarOpen)
+	barrier    bool
+	okLeft     int           // Read calls that still succeed
+	width      int           // the failing Read opens when this many callers are inside ...
+	manual     bool          // ... unless the harness opens it itself (then `full` tells the harness)
+	limit      time.Duration // time limit after the first caller arrived
+	cond       *sync.Cond
+	held       int
+	open       bool
+	timerOn    bool
+	full       chan struct{} // closed when `width` callers are inside, or the time limit has passed
+	fullClosed bool
+	openHeld   int  // callers inside when the reader opened
+	openForced bool // opened before `width` callers were inside
+	openEarly  bool // opened before the call was marked as returned
 }
 
 func newC19Reader(seed int64, failAfter int64) *c19Reader {
 	return &c19Reader{r: rand.New(rand.NewSource(seed)), left: failAfter}
+}
+
+func newC19BarrierReader(seed int64, okReads, width int, manual bool, limit time.Duration) *c19Reader {
+	r := &c19Reader{r: rand.New(rand.NewSource(seed)), left: -1, barrier: true, okLeft: okReads, width: width, manual: manual, limit: limit, full: make(chan struct{})}
+	r.cond = sync.NewCond(&r.mu)
+	return r
+}
+
+// openLocked opens the barrier (r.mu held).
+func (r *c19Reader) openLocked() {
+	if r.open {
+		return
+	}
+	r.open = true
+	r.openHeld = r.held
+	r.openForced = r.held < r.width
+	r.openEarly = !r.returned
+	r.cond.Broadcast()
+}
+
+func (r *c19Reader) fullLocked() {
+	if !r.fullClosed {
+		r.fullClosed = true
+		close(r.full)
+	}
+}
+
+// openNow is the harness opening the barrier itself (manual mode).
+func (r *c19Reader) openNow() {
+	r.mu.Lock()
+	r.openLocked()
+	r.mu.Unlock()
+}
+
+// waiting: callers are inside the failing Read and the reader has not opened yet (an action of the harness is pending).
+func (r *c19Reader) waiting() bool {
+	r.mu.Lock()
+	defer r.mu.Unlock()
+	return r.barrier && !r.open && r.held > 0
+}
+
+func (r *c19Reader) barrierState() (opened bool, held int, forced bool) {
+	r.mu.Lock()
+	defer r.mu.Unlock()
+	return r.open && r.openEarly, r.openHeld, r.openForced
+}
+
+func (r *c19Reader) readBarrier(p []byte) (int, error) {
+	if r.okLeft > 0 {
+		r.okLeft--
+		r.r.Read(p)
+		r.served += int64(len(p))
+		return len(p), nil
+	}
+	if !r.open {
+		r.held++
+		if !r.timerOn {
+			r.timerOn = true
+			go func() {
+				time.Sleep(r.limit)
+				r.mu.Lock()
+				if r.manual {
+					r.fullLocked()
+				} else {
+					r.openLocked()
+				}
+				r.mu.Unlock()
+			}()
+		}
+		if r.held >= r.width {
+			if r.manual {
+				r.fullLocked()
+			} else {
+				r.openLocked()
+			}
+		}
+		for !r.open {
+			r.cond.Wait()
+		}
+		r.held--
+	}
+	r.failed = true
+	return 0, errC19Entropy
 }
 
 func (r *c19Reader) Read(p []byte) (int, error) {
@@ -110,6 +225,21 @@ func (r *c19Reader) Read(p []byte) (int, error) {
 	defer r.mu.Unlock()
 	if r.returned {
 		r.late++
+	}
+	if r.barrier {
+		return r.readBarrier(p)
+	}
+	if r.transient {
+		if r.okLeft > 0 || r.failed {
+			if r.okLeft > 0 {
+				r.okLeft--
+			}
+			r.r.Read(p)
+			r.served += int64(len(p))
+			return len(p), nil
+		}
+		r.failed = true
+		return 0, errC19Entropy
 	}
 	if r.left < 0 {
 		r.r.Read(p)
@@ -223,6 +353,70 @@ func c19DumpText(gs []c19Goroutine, max int) string {
 	return sb.String()
 }
 
+const c19LibPath = "github.com/bnb-chain/tss-lib/v2/"
+
+// c19ParkedBy returns the innermost frame of a goroutine outside the run-time system (runtime, sync, internal/...): the
+// function that executed the blocking operation.
+func c19ParkedBy(g c19Goroutine) string {
+	lines := strings.Split(g.Text, "\n")
+	for _, l := range lines[1:] {
+		if l == "" || l[0] == '\t' || strings.HasPrefix(l, "created by ") {
+			continue
+		}
+		if strings.HasPrefix(l, "runtime.") || strings.HasPrefix(l, "sync.") || strings.HasPrefix(l, "internal/") || strings.HasPrefix(l, "sync/") {
+			continue
+		}
+		if i := strings.LastIndex(l, "("); i > 0 {
+			l = l[:i]
+		}
+		return l
+	}
+	return ""
+}
+
+// c19DeadlockCert decides from one dump of the library goroutines of a call that has not returned whether the dump
+// itself shows a deadlock of the library: every goroutine is parked in a blocking operation (channel send / receive,
+// select, WaitGroup) that a function of the library executed - none inside the entropy reader or any other code of the
+// harness, none runnable.  The channels and the WaitGroup of GetRandomSafePrimesConcurrent are local to the call: only
+// these goroutines can ever touch them, so none of them will run again.  The summary names state and function per goroutine.
+func c19DeadlockCert(gs []c19Goroutine) (ok bool, summary string) {
+	if len(gs) == 0 {
+		return false, ""
+	}
+	count := map[string]int{}
+	var order []string
+	for _, g := range gs {
+		by := c19ParkedBy(g)
+		if !c19Blocking(g.State) || !strings.HasPrefix(by, c19LibPath) {
+			return false, ""
+		}
+		op := g.State
+		if strings.Contains(g.Text, "sync.(*WaitGroup).Wait") {
+			op = "sync.(*WaitGroup).Wait"
+		}
+		k := op + " in " + strings.TrimPrefix(by, c19LibPath)
+		if count[k] == 0 {
+			order = append(order, k)
+		}
+		count[k]++
+	}
+	var parts []string
+	for _, k := range order {
+		parts = append(parts, fmt.Sprintf("%d x %s", count[k], k))
+	}
+	return true, strings.Join(parts, "; ")
+}
+
+// c19ConsumerJoining: the goroutine that called GetRandomSafePrimesConcurrent sits in its deferred WaitGroup.Wait().
+func c19ConsumerJoining() bool {
+	for _, g := range c19LibGoroutines(false) {
+		if strings.Contains(g.Text, "common.GetRandomSafePrimesConcurrent") && strings.Contains(g.Text, "sync.(*WaitGroup).Wait") {
+			return true
+		}
+	}
+	return false
+}
+
 // c19Settle waits until no more than base producer goroutines exist.
 func c19Settle(base int, limit time.Duration) []c19Goroutine {
 	deadline := time.Now().Add(limit)
@@ -244,6 +438,13 @@ func c19Settle(base int, limit time.Duration) []c19Goroutine {
 // the same blocking states (channel send / receive, select, WaitGroup) - nothing inside the process can wake them.
 // Returns "" when done, else "deadlock" / "busy" and the dump of the library goroutines.
 func c19Watch(done <-chan struct{}, deadline time.Duration, pending func() bool, lib func() []c19Goroutine) (kind, dump string) {
+	kind, dump, _, _ = c19WatchCert(done, deadline, pending, lib)
+	return
+}
+
+// c19WatchCert is c19Watch that also returns the number of consecutive identical dumps behind a "deadlock" and the
+// certificate of c19DeadlockCert for the last one.
+func c19WatchCert(done <-chan struct{}, deadline time.Duration, pending func() bool, lib func() []c19Goroutine) (kind, dump string, samples int, cert string) {
 	limit := time.After(deadline)
 	tick := time.NewTicker(time.Second)
 	defer tick.Stop()
@@ -263,20 +464,21 @@ func c19Watch(done <-chan struct{}, deadline time.Duration, pending func() bool,
 	for {
 		select {
 		case <-done:
-			return "", ""
+			return "", "", 0, ""
 		case <-limit:
 			g1 := lib()
 			time.Sleep(400 * time.Millisecond)
 			select {
 			case <-done:
-				return "", ""
+				return "", "", 0, ""
 			default:
 			}
 			g2 := lib()
-			if same(g1, g2) {
-				return "deadlock", c19DumpText(g2, 6000)
+			if same(g1, g2) && !(pending != nil && pending()) {
+				_, cert = c19DeadlockCert(g2)
+				return "deadlock", c19DumpText(g2, 6000), 2, cert
 			}
-			return "busy", c19DumpText(g2, 6000)
+			return "busy", c19DumpText(g2, 6000), 0, ""
 		case <-tick.C:
 			ticks++
 			if ticks < 3 || (pending != nil && pending()) {
@@ -293,10 +495,11 @@ func c19Watch(done <-chan struct{}, deadline time.Duration, pending func() bool,
 			if stable >= 3 {
 				select {
 				case <-done:
-					return "", ""
+					return "", "", 0, ""
 				default:
 				}
-				return "deadlock", c19DumpText(cur, 6000)
+				_, cert = c19DeadlockCert(cur)
+				return "deadlock", c19DumpText(cur, 6000), stable + 1, cert
 			}
 		}
 	}
@@ -324,6 +527,12 @@ func c19RunGen(cs c19GenCase) (out c19GenOut) {
 		failAfter = int64(cs.FailAfter)
 	}
 	rd := newC19Reader(cs.Seed, failAfter)
+	if cs.Entropy == "transient" {
+		rd.left, rd.transient, rd.okLeft = -1, true, cs.OkReads
+	}
+	if cs.Entropy == "barrier" {
+		rd = newC19BarrierReader(cs.Seed, cs.OkReads, cs.C, cs.Cancel == "held", 5*time.Second)
+	}
 	ctx, cancel := context.WithCancel(context.Background())
 	defer cancel()
 	if cs.Cancel == "pre" {
@@ -372,9 +581,34 @@ func c19RunGen(cs c19GenCase) (out c19GenOut) {
 	var r ret
 	got := make(chan struct{})
 	go func() { r = <-done; close(got) }()
-	pending := func() bool { return cs.Cancel == "during" && !cancelStarted.Load() }
-	if kind, dump := c19Watch(got, deadline, pending, func() []c19Goroutine { return c19LibGoroutines(false) }); kind != "" {
-		out.Outcome, out.Dump = kind, dump
+	var heldDone atomic.Bool
+	if cs.Cancel == "held" && rd.barrier {
+		// every producer is inside the failing Read (or the reader's time limit has passed): cancel the caller's context,
+		// give the consumer the time to return and to reach its deferred wg.Wait(), then let all the Reads fail at once -
+		// nobody receives from errCh any more
+		go func() {
+			defer heldDone.Store(true)
+			select {
+			case <-rd.full:
+			case <-time.After(6 * time.Second): // no producer ever arrived at the reader
+			case <-got:
+				return
+			}
+			cancelAt.Store(time.Now().UnixNano())
+			cancelStarted.Store(true)
+			cancel()
+			for i := 0; i < 60 && !c19ConsumerJoining(); i++ {
+				time.Sleep(250 * time.Microsecond)
+			}
+			rd.openNow()
+		}()
+	}
+	pending := func() bool {
+		return (cs.Cancel == "during" && !cancelStarted.Load()) || (cs.Cancel == "held" && rd.barrier && !heldDone.Load()) || rd.waiting()
+	}
+	if kind, dump, samples, cert := c19WatchCert(got, deadline, pending, func() []c19Goroutine { return c19LibGoroutines(false) }); kind != "" {
+		out.Outcome, out.Dump, out.Samples, out.Cert = kind, dump, samples, cert
+		out.BarOpened, out.BarHeld, out.BarForced = rd.barrierState()
 		out.ElapsedMs = float64(time.Since(t0).Microseconds()) / 1000
 		out.ReaderFailed, out.ReaderServed = rd.state()
 		out.CancelBefore = cancelStarted.Load() || cs.Cancel == "pre"
@@ -394,6 +628,7 @@ func c19RunGen(cs c19GenCase) (out c19GenOut) {
 	}
 	out.ReaderFailed, out.ReaderServed = rd.state()
 	out.LateReads = rd.lateReads()
+	out.BarOpened, out.BarHeld, out.BarForced = rd.barrierState()
 	switch {
 	case r.panicked != "":
 		out.Outcome, out.Panic = "panic", r.panicked
@@ -456,10 +691,25 @@ func c19PairDefect(q, p *big.Int, bits int) string {
 	return ""
 }
 
+func c19GenDesc(cs c19GenCase) string {
+	ent := cs.Entropy
+	if cs.Entropy == "transient" {
+		ent = fmt.Sprintf("source whose Read call number %d fails while all others succeed", cs.OkReads+1)
+	}
+	if cs.Entropy == "barrier" {
+		ent = fmt.Sprintf("source that serves %d Read call(s) and then fails for all %d producers at the same moment", cs.OkReads, cs.C)
+	}
+	can := cs.Cancel
+	if cs.Cancel == "held" {
+		can = "once every producer is inside the failing Read, before the Reads return"
+	}
+	return fmt.Sprintf("GetRandomSafePrimesConcurrent(bitLen=%d, numPrimes=%d, concurrency=%d) [GOMAXPROCS %d, entropy %s, cancellation %s]", cs.Bits, cs.N, cs.C, cs.Procs, ent, can)
+}
+
 func c19JudgeGen(cs c19GenCase, o c19GenOut) (vs []c19Viol) {
 	fn := "C19:GetRandomSafePrimesConcurrent"
 	size := c19SizeClass(cs.Bits)
-	desc := fmt.Sprintf("GetRandomSafePrimesConcurrent(bitLen=%d, numPrimes=%d, concurrency=%d) [GOMAXPROCS %d, entropy %s, cancellation %s]", cs.Bits, cs.N, cs.C, cs.Procs, cs.Entropy, cs.Cancel)
+	desc := c19GenDesc(cs)
 	add := func(key, what string) { vs = append(vs, c19Viol{key, what}) }
 	disturbed := cs.Cancel == "pre" || o.CancelBefore || o.ReaderFailed
 	switch o.Outcome {
@@ -479,7 +729,7 @@ func c19JudgeGen(cs c19GenCase, o c19GenOut) (vs []c19Viol) {
 		if cs.Cancel == "pre" {
 			add(fn+":pre-cancelled-context-returns-primes", desc+" returned primes although its context was done before the call")
 		}
-		if cs.Entropy == "zero" {
+		if cs.Entropy == "zero" || (cs.Entropy == "barrier" && cs.OkReads == 0) {
 			add(fn+":returns-primes-without-entropy", desc+" returned primes although its entropy source fails at the first byte")
 		}
 	case "cancelled":
@@ -515,9 +765,29 @@ func c19TraceLines(cs c19GenCase, o c19GenOut, maxC int) []string {
 		c = maxC
 	}
 	j := func(m map[string]any) string { b, _ := json.Marshal(m); return string(b) }
-	lines := []string{j(map[string]any{"ev": "Call", "c": c, "n": cs.N, "entropy": cs.Entropy, "pre": cs.Cancel == "pre"})}
-	if o.CancelBefore && cs.Cancel == "during" {
+	proj := func(k int) int {
+		if k > maxC {
+			return maxC
+		}
+		return k
+	}
+	reads, bar := 0, 0
+	if cs.Entropy == "barrier" || cs.Entropy == "transient" {
+		if cs.OkReads > 3 {
+			return nil
+		}
+		reads = cs.OkReads
+		if cs.Entropy == "barrier" {
+			bar = c
+		}
+	}
+	lines := []string{j(map[string]any{"ev": "Call", "c": c, "n": cs.N, "entropy": cs.Entropy, "reads": reads, "bar": bar, "pre": cs.Cancel == "pre"})}
+	if o.CancelBefore && (cs.Cancel == "during" || cs.Cancel == "held") {
 		lines = append(lines, j(map[string]any{"ev": "Cancel"}))
+	}
+	if cs.Entropy == "barrier" && o.BarOpened {
+		// (with cancellation "held" the harness opens the reader after it has cancelled: the Cancel line comes first)
+		lines = append(lines, j(map[string]any{"ev": "BarrierOpen", "held": proj(o.BarHeld), "forced": o.BarForced}))
 	}
 	lines = append(lines, j(map[string]any{"ev": "Return", "outcome": o.Outcome, "count": o.Count}))
 	lines = append(lines, j(map[string]any{"ev": "Settled", "lib_goroutines": o.LibAfter - o.LibBase, "late_reads": o.LateReads, "reader_failed": o.ReaderFailed}))
